@@ -58,6 +58,7 @@ struct Engine {
     alloc_mean: u64,
     alloc_yields: u64,
     block_mean: u64,
+    atomic_mean: u64,
     /// a caller thread that just finished and waits to be joined by the coordinator
     exiting: Option<usize>,
     /// kernel thread ids of the simulated threads (0 = unknown yet)
@@ -84,7 +85,13 @@ thread_local! {
     static COUNTDOWN: Cell<u64> = const { Cell::new(u64::MAX) };
     /// basic-block preemption: blocks of library code left until the next scheduling point
     static BLOCK_COUNTDOWN: Cell<u64> = const { Cell::new(u64::MAX) };
+    /// atomic-operation preemption: atomic operations of library code left until the next
+    /// scheduling point
+    static ATOMIC_COUNTDOWN: Cell<u64> = const { Cell::new(u64::MAX) };
 }
+
+/// atomic operations executed by library code of calls on simulated threads (reach probe)
+pub static ATOMIC_OPS: std::sync::atomic::AtomicU64 = std::sync::atomic::AtomicU64::new(0);
 
 /// Restores the allocation gate of this thread when dropped.
 pub struct GateGuard(u8);
@@ -107,7 +114,7 @@ pub fn gate_open_for_call() -> GateGuard {
     let open = {
         let mut g = lock();
         match g.as_mut() {
-            Some(e) if e.active && tid() != 0 && (e.alloc_mean > 0 || e.block_mean > 0) => {
+            Some(e) if e.active && tid() != 0 && (e.alloc_mean > 0 || e.block_mean > 0 || e.atomic_mean > 0) => {
                 let next_a = if e.alloc_mean > 0 {
                     1 + e.rng.below(2 * e.alloc_mean as usize) as u64
                 } else {
@@ -118,8 +125,14 @@ pub fn gate_open_for_call() -> GateGuard {
                 } else {
                     u64::MAX
                 };
+                let next_c = if e.atomic_mean > 0 {
+                    1 + e.rng.below(2 * e.atomic_mean as usize) as u64
+                } else {
+                    u64::MAX
+                };
                 COUNTDOWN.with(|c| c.set(next_a));
                 BLOCK_COUNTDOWN.with(|c| c.set(next_b));
+                ATOMIC_COUNTDOWN.with(|c| c.set(next_c));
                 true
             }
             _ => false,
@@ -206,6 +219,73 @@ pub fn block_point() {
     }
 }
 
+/// Called (through the `__tsan_atomic*` family, atomics.rs) before every atomic operation of
+/// the two library crates — which includes the inlined fast paths of std's locks, `OnceLock`
+/// and `Arc`. With the gate open and the plan asking for it, every n-th atomic operation of a
+/// running call is a scheduling point: two adjacent atomic accesses can be separated, and a
+/// thread can be parked while it holds a lock that has no hook (so that another caller's
+/// `try_lock` fails, or its `lock` blocks for real and is routed around).
+#[inline]
+pub fn atomic_point() {
+    let gate = GATE.try_with(|g| g.get()).unwrap_or(0);
+    if gate == 0 {
+        return;
+    }
+    ATOMIC_OPS.fetch_add(1, Ordering::Relaxed);
+    // a thread that lost the baton while asleep in the kernel stops here as well
+    if ARMED_ALL.load(Ordering::Relaxed) {
+        let me = tid();
+        if me != 0 && TURN.load(Ordering::SeqCst) != me {
+            let _closed = gate_close();
+            rejoin(me);
+        }
+    }
+    if gate < 2 {
+        return;
+    }
+    let fire = ATOMIC_COUNTDOWN
+        .try_with(|c| {
+            let v = c.get();
+            if v == u64::MAX {
+                return false;
+            }
+            if v > 1 {
+                c.set(v - 1);
+                false
+            } else {
+                true
+            }
+        })
+        .unwrap_or(false);
+    if fire {
+        let _closed = gate_close();
+        atomic_sched_point();
+    }
+}
+
+fn atomic_sched_point() {
+    let me = tid();
+    if me == 0 {
+        return;
+    }
+    {
+        let mut g = lock();
+        let Some(e) = g.as_mut() else { return };
+        if !e.active {
+            return;
+        }
+        let m = e.atomic_mean.max(1);
+        let next = 1 + e.rng.below(2 * m as usize) as u64;
+        ATOMIC_COUNTDOWN.with(|c| c.set(next));
+    }
+    {
+        let mut st = state();
+        st.counters.atomic_yields += 1;
+        st.ev(&format!("t{me} atomic-yield"));
+    }
+    sched_point();
+}
+
 fn block_sched_point() {
     let me = tid();
     if me == 0 {
@@ -280,7 +360,7 @@ pub struct Stats {
     pub ext_blocks: u64,
 }
 
-pub fn start(sched: &Sched, nthreads: usize, alloc_mean: u64, block_mean: u64) {
+pub fn start(sched: &Sched, nthreads: usize, alloc_mean: u64, block_mean: u64, atomic_mean: u64) {
     let explicit = sched.explicit.clone().unwrap_or_default();
     let explicit_mode = !explicit.is_empty() || sched.switch_ppm == 0;
     *lock() = Some(Engine {
@@ -302,6 +382,7 @@ pub fn start(sched: &Sched, nthreads: usize, alloc_mean: u64, block_mean: u64) {
         alloc_mean,
         alloc_yields: 0,
         block_mean,
+        atomic_mean,
         exiting: None,
         os_tids: vec![0; nthreads + 1],
         ext_blocks: 0,
